@@ -2,8 +2,12 @@ package main
 
 import (
 	"fmt"
+	"math/big"
 	"strings"
 )
+
+// triggerOps: built-in uninterpreted operators that may trigger lemmas.
+var triggerOps = map[string]bool{"xor8": true, "xor16": true, "xor32": true, "xor64": true}
 
 // groundApps collects applications of sf_<name> whose arguments contain no bound variables.
 func groundApps(ts []*Term) map[string][]*Term {
@@ -26,7 +30,7 @@ func groundApps(ts []*Term) map[string][]*Term {
 		for _, a := range t.Args {
 			rec(a, bound)
 		}
-		if strings.HasPrefix(t.Op, "sf_") {
+		if strings.HasPrefix(t.Op, "sf_") || triggerOps[t.Op] {
 			fs := map[string]string{}
 			freeSyms(t, fs)
 			for k := range fs {
@@ -37,7 +41,8 @@ func groundApps(ts []*Term) map[string][]*Term {
 			s := t.String()
 			if !seen[s] {
 				seen[s] = true
-				out[t.Op[3:]] = append(out[t.Op[3:]], t)
+				name := strings.TrimPrefix(t.Op, "sf_")
+				out[name] = append(out[name], t)
 			}
 		}
 	}
@@ -49,8 +54,60 @@ func groundApps(ts []*Term) map[string][]*Term {
 
 // instantiate adds instances of spec axioms (and proved lemmas) at the ground
 // spec-function applications occurring in the obligation (fuel rounds).
+// quantified form of a non-looping axiom: forall params. body, pattern = the trigger application.
+func (p *Program) quantified(x *Exec, ax *Axiom) *Term {
+	sf := p.spec.Specs[ax.Trigger]
+	if sf == nil {
+		return nil
+	}
+	var bound, args []*Term
+	for i, prm := range sf.Params {
+		n := ax.Name + "." + prm.Name
+		if i < len(ax.TrigArgs) {
+			n = ax.Name + "." + ax.TrigArgs[i]
+		}
+		switch prm.Typ {
+		case "bytes":
+			bound = append(bound, Sym(n+".a", SArr), Sym(n+".o", SInt))
+		case "bytesn":
+			bound = append(bound, Sym(n+".a", SArr), Sym(n+".o", SInt), Sym(n+".n", SInt))
+		case "bool":
+			bound = append(bound, Sym(n, SBool))
+		case "arr":
+			bound = append(bound, Sym(n, SArr))
+		default:
+			bound = append(bound, Sym(n, SInt))
+		}
+	}
+	args = bound
+	app := App("sf_"+sf.Name, specRet(sf.Ret), args...)
+	body := p.instance(x, ax, app)
+	if body == nil {
+		return nil
+	}
+	return Forall(bound, body, app)
+}
+
 func (p *Program) instantiate(ob *Obligation) {
 	const fuel = 2
+	{
+		x := &Exec{p: p, names: map[string]int{}}
+		used := map[string]bool{}
+		for _, t := range append(append([]*Term(nil), ob.Hyps...), ob.Goal) {
+			t.walk(func(y *Term) {
+				if strings.HasPrefix(y.Op, "sf_") {
+					used[y.Op[3:]] = true
+				}
+			})
+		}
+		for _, ax := range p.spec.Axioms {
+			if ax.Quant && used[ax.Trigger] {
+				if q := p.quantified(x, ax); q != nil {
+					ob.Hyps = append(ob.Hyps, q)
+				}
+			}
+		}
+	}
 	done := map[string]bool{}
 	x := &Exec{p: p, names: map[string]int{}}
 	terms := append(append([]*Term(nil), ob.Hyps...), ob.Goal)
@@ -69,6 +126,9 @@ func (p *Program) instantiate(ob *Obligation) {
 				}
 			}
 		}
+		if round == 0 {
+			added = append(added, p.extensionality(apps)...)
+		}
 		if len(added) == 0 {
 			break
 		}
@@ -77,11 +137,69 @@ func (p *Program) instantiate(ob *Obligation) {
 	}
 }
 
+// extensionality: a spec function with byte-sequence parameters is a function of the
+// sequences, not of the arrays that hold them. For every pair of ground applications
+//
+//	f(a1,o1,n1,..) , f(a2,o2,n2,..)
+//
+// emit  f1 == f2  ||  n1 != n2  ||  (0 <= d < n1 && a1[o1+d] != a2[o2+d])  ||  other arguments differ
+// with a fresh witness d per sequence parameter (the skolemised form of "equal sequences give equal results").
+func (p *Program) extensionality(apps map[string][]*Term) []*Term {
+	var out []*Term
+	for name, list := range apps {
+		sf := p.spec.Specs[name]
+		if sf == nil {
+			continue
+		}
+		hasSeq := false
+		for _, prm := range sf.Params {
+			if prm.Typ == "bytesn" {
+				hasSeq = true
+			}
+		}
+		if !hasSeq || len(list) < 2 {
+			continue
+		}
+		pairs := 0
+		for i := 0; i < len(list); i++ {
+			for j := i + 1; j < len(list); j++ {
+				if pairs >= 40 {
+					break
+				}
+				pairs++
+				a, b := list[i], list[j]
+				disj := []*Term{Eq(a, b)}
+				k := 0
+				for _, prm := range sf.Params {
+					switch prm.Typ {
+					case "bytesn":
+						d := Sym(fresh("ext.d"), SInt)
+						disj = append(disj, Ne(a.Args[k+2], b.Args[k+2]),
+							And(Le(Int(0), d), Lt(d, a.Args[k+2]), Ne(Select(a.Args[k], Add(a.Args[k+1], d)), Select(b.Args[k], Add(b.Args[k+1], d)))))
+						k += 3
+					case "bytes":
+						disj = append(disj, Ne(a.Args[k], b.Args[k]), Ne(a.Args[k+1], b.Args[k+1]))
+						k += 2
+					default:
+						disj = append(disj, Ne(a.Args[k], b.Args[k]))
+						k++
+					}
+				}
+				out = append(out, Or(disj...))
+			}
+		}
+	}
+	return out
+}
+
 // instance evaluates an axiom body with its parameters bound to the arguments of a trigger application.
 func (p *Program) instance(x *Exec, ax *Axiom, app *Term) (res *Term) {
 	sf := p.spec.Specs[ax.Trigger]
 	if sf == nil {
-		return nil
+		if !triggerOps[ax.Trigger] {
+			return nil
+		}
+		sf = &SpecFun{Name: ax.Trigger, Params: []specParam{{"a", "int"}, {"b", "int"}}, Ret: "int"}
 	}
 	defer func() {
 		if r := recover(); r != nil {
@@ -124,13 +242,22 @@ func (p *Program) instance(x *Exec, ax *Axiom, app *Term) (res *Term) {
 			vars[prm.Name] = Sc{ts[0]}
 		}
 	}
+	// bit-vector lemmas are instantiated over Int terms only for values in the unsigned range of the width
+	guard := tTrue
+	for _, prm := range ax.Params {
+		var w uint
+		if n, _ := fmt.Sscanf(prm.Typ, "bv%d", &w); n == 1 {
+			t := scT(vars[prm.Name])
+			guard = And(guard, Le(Int(0), t), Lt(t, BigInt(new(big.Int).Lsh(big.NewInt(1), w))))
+		}
+	}
 	st := &State{hypSet: map[string]bool{}, heap: &Heap{fam: map[string]*Term{}, alloc: Sym("alloc@0", SArrB)}, ghost: map[string]*Term{}}
 	c := &evalCtx{x: x, st: st, heap: st.heap, vars: vars, facts: false, where: "axiom " + ax.Name}
 	body := c.term(ax.Body)
 	if ax.Req != nil {
 		body = Implies(c.term(ax.Req), body)
 	}
-	return body
+	return Implies(guard, body)
 }
 
 // lemmaObligations: proof duties for lemmas (induction), generated once per run.
@@ -180,7 +307,7 @@ func (p *Program) lemmaDuty(x *Exec, ax *Axiom) (obs []*Obligation, err error) {
 				vars[prm.Name] = Ar{A: Sym("L."+prm.Name, SArr), N: 1 << 30}
 			case "bool":
 				vars[prm.Name] = Sc{Sym("L."+prm.Name, SBool)}
-			case "bv8", "bv16", "bv32":
+			case "bv8", "bv16", "bv32", "bv64":
 				w := 0
 				fmt.Sscanf(prm.Typ, "bv%d", &w)
 				vars[prm.Name] = Sc{Sym("L."+prm.Name, bvSort(w))}
